@@ -286,7 +286,14 @@ def run_property(prop_name, tier):
         # which other shards the same worker happened to run before (a shard is a pure function of tree and seed)
         ctx = multiprocessing.get_context('spawn')
         with ctx.Pool(nproc, maxtasksperchild=1) as pool:
-            results = pool.map(_worker, args, chunksize=1)
+            try:
+                # a worker that dies (killed for memory, hard crash) loses its task and map() would wait for ever
+                results = pool.map_async(_worker, args, chunksize=1).get(timeout=budget * 3 + 900)
+            except multiprocessing.TimeoutError:
+                pool.terminate()
+                print(f'HARNESS-ERROR property={pid}: shards did not come back within {budget * 3 + 900}s (a worker was lost or a '
+                      f'product call cannot be interrupted)', file=sys.stderr)
+                return 2
 
     merged = {'evaluations': 0, 'nontrivial': set(), 'samples': [], 'classes': collections.Counter(),
               'counters': collections.Counter(), 'budget_exhausted': False, 'shards': len(specs),
